@@ -59,7 +59,7 @@ def assets(name):
     raise ValueError(name)
 
 
-COST_ASSETS = ["contract", "contract_spread", "take", "storage", "storage_sep", "transport", "transport_costs", "ext_transport", "multicommodity",
+COST_ASSETS = ["contract", "contract_spread", "take", "storage", "storage_sep", "storage_nosimult", "storage_maxdur", "storage_blocks", "transport", "transport_costs", "ext_transport", "multicommodity",
                "plant", "chp_fuel", "chp_min_load", "orderbook", "scaled", "structured", "periodic", "coarse"]
 
 
@@ -74,6 +74,9 @@ def cost_asset(kind, win, T):
          "take": dict(type="Contract", name="x", nodes=["n1"], price="q", min_cap=0.0, max_cap=2.0, min_take=take),
          "storage": dict(type="Storage", name="x", nodes=["n1"], size=20.0, cap_in=1.0, cap_out=1.0, start_level=5.0, end_level=5.0, cost_store=0.01),
          "storage_sep": dict(type="Storage", name="x", nodes=["n1"], size=20.0, cap_in=1.0, cap_out=1.0, eff_in=0.9, cost_in=0.1, cost_out=0.2, price="q"),
+         "storage_nosimult": dict(type="Storage", name="x", nodes=["n1"], size=20.0, cap_in=1.0, cap_out=1.0, eff_in=0.9, no_simult_in_out=True),
+         "storage_maxdur": dict(type="Storage", name="x", nodes=["n1"], size=20.0, cap_in=1.0, cap_out=1.0, max_store_duration=12.0, cost_in=0.1),
+         "storage_blocks": dict(type="Storage", name="x", nodes=["n1"], size=20.0, cap_in=1.0, cap_out=1.0, block_size="12h", cost_store=0.01),
          "transport": dict(type="Transport", name="x", nodes=["n1", "n2"], min_cap=0.0, max_cap=3.0, efficiency=0.9),
          "transport_costs": dict(type="Transport", name="x", nodes=["n1", "n2"], min_cap=0.0, max_cap=3.0, costs_time_series="ec", costs_const=0.1),
          "ext_transport": dict(type="ExtendedTransport", name="x", nodes=["n1", "n2"], min_cap=0.0, max_cap=3.0, costs_const=0.1, max_take=take),
